@@ -10,7 +10,7 @@ from gvsim.sim import Client, Raised, Sim, inject_rng, sut
 
 PROP = 'C05'
 TIERS = {'quick': {'runs': 2400, 'wall': 100}, 'thorough': {'runs': 60000, 'wall': 1500}}
-REACH = ['heading_BACKWARD', 'heading_LEFT', 'view_sticks_out_of_grid', 'scripted_first', 'scripted_last', 'one_object_class_world']  # probes / faults that must fire in every batch (reach gaps are reported in the evidence)
+REACH = ['heading_BACKWARD', 'heading_LEFT', 'view_sticks_out_of_grid', 'scripted_first', 'scripted_last', 'one_object_class_world', 'observation_function_built_from_configuration']  # probes / faults that must fire in every batch (reach gaps are reported in the evidence)
 RULE = ('one run = a free-form world without mandatory boundary, one built-in observation function (registry or '
         'factory) and one view area (any extent, asymmetric, origin inside or - where tolerated - outside), and a '
         'walking client that turns / moves / is placed on edges and corners and reads after every move (directly, and '
@@ -89,6 +89,22 @@ def execute(record, ctx):
                     'term': {'name': 'reach_exit'}, 'obs': {'name': name, 'area': area}, 'actions': ['MOVE_FORWARD'],
                     'types': ['Floor', 'Wall', 'Exit', 'Door', 'Key', 'MovingObstacle', 'Box', 'Telepod', 'Beacon'], 'colors': list(COLORS), 'via_factory': record['via_factory']}
             env = Client(0, spec, runner).env
+            if record['run'] % 3 == 0 and not record.get('vis'):
+                # every third run: the same observation function and area written into a configuration and built by the
+                # library's configuration factory (all object types and colours declared; the rest from a shipped file)
+                import copy
+
+                from gym_gridverse.envs.yaml.factory import factory_env_from_data
+                from gvsim.sim import load_yaml_data
+
+                data = copy.deepcopy(load_yaml_data('gv_empty.8x8.yaml'))
+                for sec in ('state_space', 'observation_space'):
+                    data[sec] = {'objects': ['Floor', 'Wall', 'Exit', 'Door', 'Key', 'MovingObstacle', 'Box', 'Telepod', 'Beacon'], 'colors': list(COLORS)}
+                data['observation_function'] = {'name': name, 'area': [list(area[0]), list(area[1])]}
+                built = sut(factory_env_from_data, data)
+                if not isinstance(built, Raised):
+                    env = built
+                    ctx.probe('observation_function_built_from_configuration')
     sample = None
     for i, op in enumerate(record['ops']):
         ctx.ticks += 1
